@@ -65,7 +65,9 @@ func (d *deduplicationStrategy) eval(
 	var rewriteKeys [][]byte
 	var rewriteValues [][]byte
 	// first, check if the whole entity is equal to the previous entity
+	isDuplicate := false
 	if server.IsEntityEqual(d.prevEntityBytes, entityBytes, d.prev, e) {
+		isDuplicate = true
 		// if to be deleted... delete 5 key types for each change version:
 		// 1.delete json entry (key already in keysToDelete)
 		del = append(del, jsonKey)
@@ -135,6 +137,13 @@ func (d *deduplicationStrategy) eval(
 		if len(rewriteKeys) > 0 {
 			res.RewriteKeys = rewriteKeys
 			res.RewriteValues = rewriteValues
+		}
+		if !isDuplicate {
+			// only duplicate reference keys of this version are removed, the version itself stays. so it is
+			// the version that the next one has to be compared with
+			d.prevJsonKey = jsonKey
+			d.prevEntityBytes = entityBytes
+			d.prev = e
 		}
 		return res, nil
 	}
